@@ -94,6 +94,27 @@ def gen_random(seed: int, n: int, long_p: float = 0.1) -> List[Dict[str, Any]]:
     return out
 
 
+def gen_label(seed: int, n: int) -> List[Dict[str, Any]]:
+    """The real LabelScheduleSource inside the loop (generated schedule ids; removal by post_send)."""
+    rng = random.Random(("schedlabel", seed).__repr__())
+    out = []
+    for _ in range(n):
+        start = rng.choice(STARTS)
+        horizon = rng.randint(2, 5) * MIN + 3000
+        sched = []
+        for sid in range(1, rng.randint(2, 4)):
+            sched.append(_cron(sid, rng) if rng.random() < 0.4 else _once(sid, rng, start, horizon))
+        for sp in sched:
+            sp["cancel"] = False
+        npolls = horizon // MIN + 1
+        out.append({"cfg": {"start": start, "horizon": horizon,
+                            "srcs": [{"label": True, "pre": "", "post": "sync", "removes": True, "sched": sched,
+                                      "fail": sorted(rng.sample(range(1, npolls + 1), 1)) if rng.random() < 0.3 else []}],
+                            "kickfail": [[rng.randint(1, 3), 1]] if rng.random() < 0.3 else []},
+                    "steps": [], "family": "sched_label_source"})
+    return out
+
+
 def gen_sweep(full: bool) -> Iterator[Dict[str, Any]]:
     """Every start offset x one-shot target time around the first two boundaries (sub-second resolution)."""
     offs = [-60000, -1500, -1000, -999, -500, -100, -1, 0, 1, 100, 499, 500, 999, 1000, 1001, 1500, 2000, 30000, 58999, 59000, 59999]
@@ -170,7 +191,7 @@ def run_check(prop: str, tier: str, extra: Any = None) -> int:
     states, transitions = r["distinct"], r["generated"]
     rep.info(f"model checking: {states} distinct states, {transitions} transitions ({r['n_cfgs']} configurations, minute = 12 units)")
     # ---- real executions
-    scns = list(gen_sweep(full=not q)) + gen_random(seed, 500 if q else 6000)
+    scns = list(gen_sweep(full=not q)) + gen_random(seed, 500 if q else 6000) + gen_label(seed, 150 if q else 2000)
     for kf in common.known_findings():
         if kf["property"] == prop and kf.get("regression_scenario"):
             scns.append(dict(kf["regression_scenario"], family="ledger:" + kf["id"]))
@@ -192,7 +213,13 @@ def run_check(prop: str, tier: str, extra: Any = None) -> int:
     idxs = list(range(0, len(traces), step))[:ncf]
     ctext = "SPECIFICATION TraceSpec\n" + const_text(sw, [], cfgs="Cfgs = {}", adds="AddSpecs = {}") + \
             "INVARIANT Progress\nPOSTCONDITION Done\nCHECK_DEADLOCK FALSE\n"
-    cf = mbt.conform([traces[i] for i in idxs], "TraceSched", ctext)
+    try:
+        cf = mbt.conform([traces[i] for i in idxs], "TraceSched", ctext)
+    except tlc.TLCError as exc:
+        if not rep.violations:
+            raise
+        rep.info('conformance run failed after violations were found: ' + str(exc)[:300])
+        cf = []
     accepted = sum(1 for a, b_ in cf if a == b_)
     for (a, b_), i in zip(cf, idxs):
         if a != b_:
